@@ -9,6 +9,7 @@
    op 7  new folder         args items, name                     obs [status; tree]
    op 8  make alias         args items, name, new items          obs [status; tree]
    op 10 download request   args items, name                     obs [status; data fork size]
+   op 11 comment + rename in one request   args items, name, comment, new name   obs [status; tree]
    status 0 = replied, 1 = error reply, 2 = no reply.  Paths/items: count(2) then len16-prefixed names. *)
 From stdpp Require Import gmap.
 From Verif Require Import Base.Bytes Corr.Case Lib.Path FS.Namespace.
@@ -78,6 +79,12 @@ Definition step (w : world) (o : dop) : world * list (list N) :=
   | 6 => upd (set_comment w items (a 1 args) (a 2 args))
   | 7 => upd (new_folder w items (a 1 args))
   | 8 => upd (make_alias w items (a 1 args) (dec_path (a 2 args)))
+  | 11 => (* one SetFileInfo request carrying a comment AND a new name: the comment is written first *)
+          let '(w1, s1) := set_comment w items (a 1 args) (a 2 args) in
+          match s1 with
+          | Replied => upd (rename_file w1 items (a 1 args) (a 3 args))
+          | _ => upd (w1, s1)
+          end
   | 10 => match download_size w items (a 1 args) with
           | Some s => (w, [[0]; be32 (s mod 4294967296)])
           | None => (w, [[2]; []])
